@@ -714,7 +714,7 @@ class TemplateGen:
         for _ in range(r.randint(1, 4)):
             c = r.random()
             if c < 0.3:
-                bits.append(r.choice(["lit", "a:b", "(x)", "a &amp b", "1<2", "don't", "100%"] + ([";;"] if listy else [])))
+                bits.append(r.choice(["lit", "a:b", "(x)", "a &amp b", "1<2", "don't", "100%"] + (["u;;v"] if listy else [])))
             elif c < 0.55:
                 bits.append("$" + self.path(sc, "str num")[0])       # followed by blank/end
             elif c < 0.85:
@@ -809,7 +809,7 @@ class TemplateGen:
         r = self.rng
         return r.choice(self.TEXTS) if r.random() < 0.85 else "<!-- %s -->" % r.choice(["c", "a > b", "x"])
 
-    def element(self, depth: int, sc: dict, loop: int = 0, macro: bool = False,
+    def element(self, depth: int, sc: dict, loop: int = 0, macro: int = 0,
                 metal: typing.Optional[typing.Tuple[str, str]] = None) -> str:
         r = self.rng
         self.elements += 1
@@ -898,12 +898,13 @@ class TemplateGen:
             out.append(self.children(depth + 1, sc, loop, macro))
             if metal and metal[0] == "metal:define-macro":
                 while self.pending:                # every declared slot appears
-                    out.append(self.element(depth + 1, sc, loop, True, ("metal:define-slot", self.pending.pop())))
+                    out.append(self.element(depth + 1, sc, loop, 1, ("metal:define-slot", self.pending.pop())))
             out.append("</%s>" % tag)
         self.later.extend(later_here)
         return "".join(out)
 
-    def children(self, depth: int, sc: dict, loop: int, macro: bool) -> str:
+    def children(self, depth: int, sc: dict, loop: int, macro: int) -> str:
+        """macro: 0 = page flow, 1 = macro body (slots may be declared), 2 = fill-slot content."""
         r, out = self.rng, []
         if depth > self.max_depth or self.elements > 40:
             return self.text()
@@ -913,26 +914,26 @@ class TemplateGen:
                 out.append(self.text())
             elif c < 0.45 and self.use_metal and self.available_macros(macro):
                 out.append(self.use_macro(depth, sc, loop, macro))
-            elif c < 0.55 and macro and self.pending:
-                out.append(self.element(depth, sc, loop, True, ("metal:define-slot", self.pending.pop())))
+            elif c < 0.55 and macro == 1 and self.pending:
+                out.append(self.element(depth, sc, loop, 1, ("metal:define-slot", self.pending.pop())))
             else:
                 out.append(self.element(depth, sc, loop, macro))
         return "".join(out)
 
-    def available_macros(self, macro: bool) -> list:
+    def available_macros(self, macro: int) -> list:
         got = [("lib/macros/" + m, s) for m, s in self.lib.items()]
         if not macro:                   # page macros are never used from inside a macro
             got += [("page/macros/" + m, s) for m, s in self.page_macros.items()]
         return got
 
-    def use_macro(self, depth: int, sc: dict, loop: int, macro: bool) -> str:
+    def use_macro(self, depth: int, sc: dict, loop: int, macro: int) -> str:
         r = self.rng
         path, slots = r.choice(self.available_macros(macro))
         self.used.add("use-macro")
         out = ["<div %s>ignored " % self.attr_text("metal:use-macro", path)]
         for s in slots:
             if r.random() < 0.65:
-                out.append(self.element(depth + 1, sc, loop, True, ("metal:fill-slot", s)))
+                out.append(self.element(depth + 1, sc, loop, 2, ("metal:fill-slot", s)))
                 out.append(r.choice(["", " junk "]))
         out.append("</div>")
         return "".join(out)
@@ -940,7 +941,7 @@ class TemplateGen:
     def macro_def(self, name: str, registry: dict) -> str:
         slots = [self.fresh("s") for _ in range(self.rng.choice([0, 1, 1, 2]))]
         self.pending = list(slots)
-        text = self.element(1, self.base_scope(), 0, True, ("metal:define-macro", name))
+        text = self.element(1, self.base_scope(), 0, 1, ("metal:define-macro", name))
         registry[name] = slots          # usable only after its own definition: no recursion
         return text
 
